@@ -1,8 +1,8 @@
 package main
 
 import (
-	"go/token"
 	"fmt"
+	"go/token"
 	"go/types"
 	"sort"
 	"strings"
@@ -101,6 +101,36 @@ func checkC32(r *Run) {
 		}
 	}
 	r.Min("C32-R4", 5)
+	// Shutdown waits for strandDone and every pool call is served by the strand: the strand goroutine is started
+	// before Run can return for any reason (a listen failure included)
+	if fn := r.fn("C32-R4", "daemon/gnet.ConnectionPool.Run"); fn != nil {
+		var goBlk *ssa.BasicBlock
+		for _, b := range fn.Blocks {
+			for _, in := range b.Instrs {
+				g, isGo := in.(*ssa.Go)
+				if !isGo {
+					continue
+				}
+				starts := calleeName(&g.Call) == "daemon/gnet.ConnectionPool.processStrand"
+				if mc, ok := g.Call.Value.(*ssa.MakeClosure); ok {
+					if cf, ok := mc.Fn.(*ssa.Function); ok && len(r.CallSites(cf, "daemon/gnet.ConnectionPool.processStrand")) > 0 {
+						starts = true
+					}
+				}
+				if starts {
+					goBlk = b
+				}
+			}
+		}
+		r.Check("C32-R4", "ConnectionPool.Run starts the strand goroutine", r.P.Pos(fn.Pos()), goBlk != nil, "")
+		if goBlk != nil {
+			for _, b := range fn.Blocks {
+				if _, isRet := b.Instrs[len(b.Instrs)-1].(*ssa.Return); isRet && b != fn.Recover {
+					r.Check("C32-R4", "ConnectionPool.Run: the strand goroutine is running before this return", r.P.Pos(b.Instrs[len(b.Instrs)-1].Pos()), goBlk == b || goBlk.Dominates(b), "Run can return without ever starting processStrand: strandDone is never closed and Shutdown (and every strand call) blocks forever")
+				}
+			}
+		}
+	}
 	// done / strandDone are closed by a defer in the entry block of Run / processStrand
 	for _, c := range []struct{ fn, ch string }{{"daemon/gnet.ConnectionPool.Run", "pool.done"}, {"daemon/gnet.ConnectionPool.processStrand", "pool.strandDone"}} {
 		fn := r.fn("C32-R4", c.fn)
